@@ -3,7 +3,7 @@
    The two facts about zone tables it rests on (exactness of first_after, shape of repeated readings)
    are Section hypotheses here; ZoneFinal.v discharges them with ZoneProofs.v. *)
 From Coq Require Import ZArith Lia Bool List ZifyBool.
-Require Import QzBase.Calendar QzBase.Fields QzBase.CalendarProofs.
+Require Import QzBase.UnixRange QzBase.Calendar QzBase.Fields QzBase.CalendarProofs.
 Require Import QzCron.Gen.Params QzCron.CsmModel QzCron.CsmSpec QzCron.NextFire QzCron.CommonProofs
                QzCron.DayProofs QzCron.MachineProofs QzCron.NodeProofs QzCron.TotalProofs QzCron.NftProofs.
 Import ListNotations.
@@ -25,7 +25,7 @@ Section Complete.
     x <= t1 /\ wall_secs z x = wall_secs z t2 /\ forall y, x <= y <= t1 -> offset_at z y = offset_at z t1.
 
   Variable prev : Z.
-  Hypothesis Hp : 0 <= prev <= max_nanos.
+  Hypothesis Hp : min_nanos <= prev <= max_nanos.
   Let ps := prev / nanos.
 
   Variable w0 : civil.
@@ -40,22 +40,22 @@ Section Complete.
   (* ... and is not a repeat of an earlier instant *)
   Hypothesis Hfresh : forall t', t' < k -> wall_secs z t' <> wall_secs z k.
 
-  Lemma ps_range : 0 <= ps <= 9223372036.
-  Proof. unfold ps, nanos. unfold max_nanos in Hp. change Params.max_int64 with 9223372036854775807 in Hp. lia. Qed.
+  Lemma ps_range : -9223372037 <= ps <= 9223372036.
+  Proof. unfold ps, nanos. unfold max_nanos, min_nanos in Hp. change Params.max_int64 with 9223372036854775807 in Hp. lia. Qed.
 
   Lemma w0_facts : valid_civil w0 = true /\ civil_to_unix w0 = wall_secs z ps /\ 0 <= year_of w0 <= 2262.
   Proof.
     destruct (civil_from_unix_sound _ _ _ E0) as [Hv Hu]. split; [exact Hv|]. split; [exact Hu|].
-    destruct w0 as [[[[[y m] d] h] mi] s]. pose proof (civil_from_unix_year_range _ _ _ _ _ _ _ _ (Hz ps) ps_range E0). cbn [year_of]. lia.
+    destruct w0 as [[[[[y m] d] h] mi] s]. pose proof (civil_from_unix_year_range_wide _ _ _ _ _ _ _ _ (Hz ps) ps_range E0). cbn [year_of]. lia.
   Qed.
 
   Lemma c_facts : valid_civil c = true /\ civil_to_unix c = wall_secs z k /\ year_of c <= 2262 /\ all_valid_c f c.
   Proof.
     destruct (civil_from_unix_sound _ _ _ Ec) as [Hv Hu]. split; [exact Hv|]. split; [exact Hu|].
     assert (Hy : year_of c <= 2262).
-    { pose proof ps_range as Hpr. assert (Hkr : 0 <= k <= 9223372036) by lia.
+    { pose proof ps_range as Hpr. assert (Hkr : -9223372037 <= k <= 9223372036) by lia.
       destruct c as [[[[[y m] d] h] mi] s].
-      pose proof (civil_from_unix_year_range _ _ _ _ _ _ _ _ (Hz k) Hkr Ec). cbn [year_of]. lia. }
+      pose proof (civil_from_unix_year_range_wide _ _ _ _ _ _ _ _ (Hz k) Hkr Ec). cbn [year_of]. lia. }
     split; [exact Hy|]. apply (all_valid_c_matches f Hwf c Hy). exact Hm.
   Qed.
 
@@ -210,7 +210,7 @@ Theorem nft_zone_complete_gen : forall f z prev t,
   (forall t1 t2, t1 < t2 -> wall_secs z t2 <= wall_secs z t1 ->
      let x := wall_secs z t2 - offset_at z t1 in
      x <= t1 /\ wall_secs z x = wall_secs z t2 /\ forall y, x <= y <= t1 -> offset_at z y = offset_at z t1) ->
-  0 <= prev <= max_nanos -> prev < t <= max_nanos -> t mod nanos = 0 ->
+  min_nanos <= prev <= max_nanos -> prev < t <= max_nanos -> t mod nanos = 0 ->
   matches_at f z t ->
   (forall t', t' < t / nanos -> wall_secs z t' <> wall_secs z (t / nanos)) ->
   exists ns, next_fire_time_zone f z prev = Fire ns /\ ns <= t.
@@ -218,13 +218,13 @@ Proof.
   intros f z prev t Hwf Hz FA REP Hp Ht Hmod [c [Ec Hm]] Hfresh.
   pose proof (nft_zone_total f Hwf z Hz prev Hp) as Htot.
   unfold next_fire_time_zone in *.
-  unfold max_nanos in Hp, Ht. change Params.max_int64 with 9223372036854775807 in Hp, Ht.
-  assert (Hps : 0 <= prev / nanos <= 9223372036) by (unfold nanos; lia).
-  destruct (civil_from_unix_total _ _ (Hz (prev / nanos)) Hps) as [w0 E0]. rewrite E0 in *.
+  unfold max_nanos, min_nanos in Hp, Ht. change Params.max_int64 with 9223372036854775807 in Hp, Ht.
+  assert (Hps : -9223372037 <= prev / nanos <= 9223372036) by (unfold nanos; lia).
+  destruct (civil_from_unix_total_wide (offset_at z (prev / nanos)) (prev / nanos)) as [w0 E0]. rewrite E0 in *.
   assert (Hkt : t = (t / nanos) * nanos) by (unfold nanos in *; lia).
   assert (Hk : prev / nanos < t / nanos <= 9223372036) by (unfold nanos in *; lia).
   pose proof (loop_does_not_pass_k f Hwf z Hz FA REP prev
-                ltac:(unfold max_nanos; change Params.max_int64 with 9223372036854775807; lia)
+                ltac:(unfold max_nanos, min_nanos; change Params.max_int64 with 9223372036854775807; lia)
                 w0 E0 (t / nanos) c Hk Ec Hm Hfresh) as L.
   destruct (loop_pos zone_fuel (nft_body f z (prev / nanos)) w0) as [w|[ns| |]].
   - exfalso. apply Htot. reflexivity.
